@@ -104,38 +104,3 @@ fn c15_q_animation_direction() {
     kani::cover!(dir == 2 && ok);
 }
 
-/// tileset whose pixels are not embedded (flag 2 clear): the chunk decodes, validation refuses the sprite
-#[kani::proof]
-#[kani::unwind(8)]
-#[kani::stub(alloc::fmt::format, crate::vklib::empty_format)]
-#[kani::stub(std::hash::RandomState::new, crate::vklib::fixed_random_state)]
-#[kani::stub(crate::reader::AseReader::unzip, crate::vklib::stub_unzip_identity)]
-fn c15_t_tileset_without_embedded_pixels() {
-    let mut buf: [u8; 42] = kani::any();
-    let linked: bool = kani::any();
-    buf[0] = 5; // tileset id concrete (hash-map key)
-    buf[1] = 0;
-    buf[2] = 0;
-    buf[3] = 0;
-    buf[4] = if linked { 1 } else { 0 }; // flags: external link yes/no, FILE_INCLUDES_TILES clear
-    buf[5] = 0;
-    buf[6] = 0;
-    buf[7] = 0;
-    buf[32] = 0;
-    buf[33] = 0;
-    kani::assume(rd16(&buf, 12) >= 1 && rd16(&buf, 14) >= 1);
-    let ts = match crate::tileset::Tileset::<RawPixels>::parse_chunk(&buf, PixelFormat::Rgba) {
-        Ok(t) => t,
-        Err(e) => {
-            core::mem::forget(e);
-            assert!(false, "header-only tileset chunk decodes");
-            return;
-        }
-    };
-    let mut all = TilesetsById::<RawPixels>::new();
-    all.add(ts);
-    let ok = ok_and_forget(all.validate(&PixelFormat::Rgba, None));
-    assert!(!ok, "a tileset without embedded pixels is refused at load");
-    kani::cover!(linked);
-    kani::cover!(!linked);
-}
